@@ -651,6 +651,8 @@ class Emitter:
             return "[" + ", ".join(self.tx(x) for x in e[1]) + "]"
         if k == "repeat":
             return f"(List.replicate {self.tx(e[2])} {self.tx(e[1])})"
+        if k == "str" and e[1].startswith('"') and re.fullmatch(r'"[ -!#-\[\]-~]*"', e[1]):
+            return e[1]          # a plain ASCII string literal without escapes reads the same in Lean
         if k == "macro" and e[1] == "vec":
             q = P(["["] + list(e[2]) + ["]"])
             arr = q.primary(False)
